@@ -20,7 +20,8 @@ Proof. intros c H. exact (td_forallb_family _ _ c td_families_ok_close2 H). Qed.
 Definition td_all_families : list td_cfg := td_families ++ td_families_close2 ++ td_families_t1.
 
 Lemma td_safe_everywhere : forall c s, In c td_all_families -> td_reach c s ->
-  td_chk_wac s = true /\ td_chk_chan s = true /\ td_chk_abort s = true /\ td_chk_close2 s = true.
+  td_chk_wac s = true /\ td_chk_chan s = true /\ td_chk_abort s = true /\ td_chk_close2 s = true /\
+  td_chk_shut s = true.
 Proof.
   intros c s Hc Hr. unfold td_all_families in Hc. apply in_app_or in Hc. destruct Hc as [Hc | Hc].
   - destruct (td_check_family_sound c (td_in_families c Hc)) as [Hs _].
@@ -30,7 +31,7 @@ Proof.
       destruct (td_chk_state_split c s (Hs s Hr)) as [_ H]. exact H.
     + pose proof (td_forallb_family _ _ c td_families_t1_safe Hc) as Hf. cbv beta in Hf.
       pose proof (td_check_family_safe_sound c _ Hf s Hr) as H. unfold td_chk_state_t1 in H.
-      repeat (apply andb_true_iff in H; destruct H as [H ?]). auto.
+      do 4 (apply andb_true_iff in H; destruct H as [H ?]). repeat split; assumption.
 Qed.
 
 (* (a) maximal run ends are finished: no deadlocked configuration is reachable *)
@@ -60,8 +61,9 @@ Qed.
    caller has returned *)
 Lemma td_done_spec : forall s, td_done s = true ->
   td_rl s = TdRlDone /\ td_wl s = TdWlDone /\ td_tl s = true /\ td_tcl s = true /\ td_lk s = false /\
-  td_cw s <> TdCwWait /\ td_rd s <> TdRdParked /\ td_rd s <> TdRdCheck /\ td_wr s <> TdWrBlocked /\
-  td_wr s <> TdWrWoken /\ td_ac s <> TdAcWait /\ td_sh s <> TdShWait /\
+  (td_cw s = TdCwNone \/ td_cw s = TdCwOk \/ td_cw s = TdCwHsErr \/ td_cw s = TdCwClosed) /\
+  td_rd s <> TdRdParked /\ td_rd s <> TdRdCheck /\ td_wr s <> TdWrBlocked /\
+  td_wr s <> TdWrWoken /\ td_ac s <> TdAcWait /\ td_sh s <> TdShWait /\ td_sh s <> TdShWoken /\
   (td_c1 s = TdCcNone \/ td_c1 s = TdCcRet) /\ (td_c2 s = TdCcNone \/ td_c2 s = TdCcRet) /\
   (td_ab s = TdAbNone \/ td_ab s = TdAbRet).
 Proof.
@@ -69,6 +71,7 @@ Proof.
   split; [destruct (td_rl s); try discriminate; reflexivity|].
   split; [destruct (td_wl s); try discriminate; reflexivity|].
   split; [assumption|]. split; [assumption|]. split; [apply negb_true_iff; assumption|].
+  split; [destruct (td_cw s); try discriminate; auto|].
   split; [intro E; rewrite E in *; discriminate|].
   split; [intro E; rewrite E in *; discriminate|].
   split; [intro E; rewrite E in *; discriminate|].
@@ -121,7 +124,7 @@ Lemma td_close_idempotent : forall c s, In c td_all_families -> td_reach c s -> 
   (forall t, In t (td_close_caller td_c2 td_set_c2 s) -> td_set_c2 (td_c2 s) t = s) /\
   (td_c2 s <> TdCcNone -> td_c2 s <> TdCcRet -> td_close_caller td_c2 td_set_c2 s <> []).
 Proof.
-  intros c s Hc Hr H1. destruct (td_safe_everywhere c s Hc Hr) as [_ [_ [_ H]]].
+  intros c s Hc Hr H1. destruct (td_safe_everywhere c s Hc Hr) as [_ [_ [_ [H _]]]].
   unfold td_chk_close2 in H. rewrite H1 in H.
   destruct (td_c2 s) eqn:E2.
   - split; [|congruence]. intros t Hin. unfold td_close_caller in Hin. rewrite E2 in Hin. destruct Hin.
@@ -173,24 +176,44 @@ Proof.
   apply negb_true_iff in Hp. apply eqb_prop in Hcw. apply eqb_prop in Ha. auto.
 Qed.
 
-(* refutation: with T1 exhaustion a transport failure (or an Abort() call) can leave the association stuck *)
-Lemma td_t1_stuck_rfail : exists c s, In c td_families_t1 /\ td_reach c s /\ td_injected c s = true /\
-  td_steps c s = [] /\ td_done s = false /\ td_rl s = TdRlHs /\ td_cw s = TdCwHsErr.
+(* (f) Shutdown's result *)
+Lemma td_shutdown_result : forall c s, In c td_all_families -> td_reach c s ->
+  (td_sh s = TdShNil -> td_sdc s = true) /\ (td_sh s = TdShErr -> td_sdc s = false).
 Proof.
-  destruct td_witness_t1_rfail_ok as [s [Hf [Hcw [Hrl [_ [_ [Hinj [Hfin Hd]]]]]]]].
-  exists td_cfg_t1_rfail, s. split; [right; right; left; reflexivity|].
-  split; [exact (td_follow_reach _ _ _ Hf)|].
-  split; [exact Hinj|].
-  split; [|auto]. unfold td_final in Hfin. destruct (td_steps td_cfg_t1_rfail s); [reflexivity | discriminate Hfin].
+  intros c s Hc Hr. destruct (td_safe_everywhere c s Hc Hr) as [_ [_ [_ [_ H]]]].
+  unfold td_chk_shut in H. split; intro E; rewrite E in H; [exact H | apply negb_true_iff; exact H].
 Qed.
 
-Lemma td_t1_stuck_abort : exists c s, In c td_families_t1 /\ td_reach c s /\
-  td_steps c s = [] /\ td_done s = false /\ td_ab s = TdAbFlag.
+(* T1 exhaustion after fix aeda016: with a Close() or a failing conn.Read everything holds *)
+Lemma td_t1_ok : forall c s, In c td_families_t1_ok -> td_reach c s ->
+  (td_steps c s = [] -> td_done s = true) /\ td_can_finish c s.
 Proof.
-  destruct td_witness_t1_abort_ok as [s [Hf [_ [_ [_ [Hab [Hfin Hd]]]]]]].
+  intros c s Hc Hr.
+  destruct (td_check_family_sound c (td_forallb_family _ _ c td_families_t1_ok_chk Hc)) as [Hs Hl].
+  split; [|exact (Hl s Hr)]. intro Hnil.
+  destruct (td_chk_state_split c s (Hs s Hr)) as [Hd _].
+  unfold td_chk_dead, td_final in Hd. rewrite Hnil in Hd. exact Hd.
+Qed.
+
+(* residual refutation: the T1 failure callback racing with the completion of the handshake *)
+Lemma td_t1_stuck_abort : exists c s, In c td_families_t1 /\ td_reach c s /\
+  td_steps c s = [] /\ td_done s = false /\ td_ab s = TdAbFlag /\ td_tf s = TdTfBlocked /\ td_cw s = TdCwOk /\
+  td_st s = TdStEst.
+Proof.
+  destruct td_witness_t1_abort_ok as [s [Hf [Hcw [Htf [_ [Hab [Hst [Hfin Hd]]]]]]]].
   exists td_cfg_t1_abort, s. split; [right; left; reflexivity|].
   split; [exact (td_follow_reach _ _ _ Hf)|].
-  split; [|auto]. unfold td_final in Hfin. destruct (td_steps td_cfg_t1_abort s); [reflexivity | discriminate Hfin].
+  split; [|auto 10]. unfold td_final in Hfin. destruct (td_steps td_cfg_t1_abort s); [reflexivity | discriminate Hfin].
+Qed.
+
+Lemma td_t1_stuck_wfail : exists c s, In c td_families_t1 /\ td_reach c s /\ td_injected c s = true /\
+  td_steps c s = [] /\ td_done s = false /\ td_tf s = TdTfBlocked /\ td_cw s = TdCwOk.
+Proof.
+  destruct td_witness_t1_wfail_ok as [s [Hf [Hcw [Htf [_ [_ [Hinj [Hfin Hd]]]]]]]].
+  exists td_cfg_t1_wfail, s. split; [right; right; right; left; reflexivity|].
+  split; [exact (td_follow_reach _ _ _ Hf)|].
+  split; [exact Hinj|].
+  split; [|auto]. unfold td_final in Hfin. destruct (td_steps td_cfg_t1_wfail s); [reflexivity | discriminate Hfin].
 Qed.
 
 (* the outcome sets the comparator reads from the model cover every reachable maximal run end *)
